@@ -122,7 +122,7 @@ def run(pid: str, repo: str, report=None, jobs: int = 16) -> Dict[str, Any]:
     work = [(repo, dict(v, props=[pid])) for v in variants]
     if not work:
         return {}
-    with multiprocessing.Pool(min(jobs, len(work))) as pool:
+    with multiprocessing.Pool(min(jobs, len(work)), maxtasksperchild=8) as pool:
         results = pool.map(_run_variant, work)
     faults = [r for r in results if r.get('kind') == 'fault']
     controls = [r for r in results if r.get('kind') == 'control']
